@@ -194,7 +194,7 @@ class Item(T.NamedTuple):
 
 
 def mk_test(ok: bool, num: T.Optional[int], name: str, directive: T.Optional[str], expl: T.Optional[str],
-            sp: T.Sequence[str] = (' ', ' ', ' ', ' ', ' '), nl: str = '') -> Item:
+            sp: T.Sequence[str] = (' ', ' ', ' ', ' ', ' '), nl: str = '', comment: T.Optional[str] = None) -> Item:
     """`name` has no '#', no leading/trailing space and does not start with a digit; `directive` is a
     spelling of SKIP…/TODO; `expl` has no leading/trailing space and no newline"""
     s = 'ok' if ok else 'not ok'
@@ -206,6 +206,9 @@ def mk_test(ok: bool, num: T.Optional[int], name: str, directive: T.Optional[str
         s += sp[2] + '#' + sp[3] + directive
         if expl:
             s += sp[4] + expl
+    elif comment is not None:
+        # a trailing comment that is no directive: the status must stay plain
+        s += sp[2] + '#' + sp[3] + comment
     return Item('test', s + nl, (ok, num, name, directive, expl or None))
 
 
@@ -423,6 +426,9 @@ SKIPS = ['SKIP', 'skip', 'Skip', 'SKIPPED', 'skipped', 'SkIpPiNg', 'SKIP-x', 'sk
 TODOS = ['TODO', 'todo', 'ToDo', 'tOdO']
 EXPLS = [None, 'why', 'not yet', 'see #12', 'needs  space', '- later', ': colon', '→ arrow', 'SKIP', 'TODO ok']
 SPACES = [' ', '  ', '\t', ' \t ']
+# comments after a test that are not TAP directives (no word boundary after TODO, no SKIP prefix, ...)
+NOT_DIRECTIVES = ['TODOS', 'todo_x', 'TODO2 later', 'ToDone', 'FIXME', 'note', 'SKI', 'S KIP', 'T ODO', 'skp why', '', 'see TODO',
+                  'x SKIP', '#SKIP', ': TODO']
 
 
 def rand_test_item(rng, simple: bool = False) -> Item:
@@ -442,7 +448,10 @@ def rand_test_item(rng, simple: bool = False) -> Item:
     if num is None and not name and directive is not None and rng.random() < 0.3:
         sp[2] = ''
     nl = rng.choice(['', '', '\n', ' \n', '\r\n', '  '])
-    return mk_test(ok, num, name, directive, expl, sp, nl)
+    comment = None
+    if directive is None and rng.random() < 0.2:
+        comment = rng.choice(NOT_DIRECTIVES)
+    return mk_test(ok, num, name, directive, expl, sp, nl, comment)
 
 
 def rand_items(rng, maxlen: int) -> T.List[Item]:
@@ -483,7 +492,7 @@ def rand_items(rng, maxlen: int) -> T.List[Item]:
                 for _ in range(rng.randint(0, 3)):
                     body = rng.choice(['foo: abc', ' bar: def', '', 'ok 9 hidden', '1..3', '# c', 'Bail out!', '- ...',
                                        'not ok', 'TAP version 13', '--- again'])
-                    items.append(Item('ybody', ind + body + rng.choice(['', '\n']), None))
+                    items.append(Item('ybody' if body else 'blank', ind + body + rng.choice(['', '\n']), None))
                 if rng.random() < 0.75:
                     ind2 = ind if rng.random() < 0.8 else rng.choice([' ', '    '])
                     items.append(Item('yend', ind2 + '...' + rng.choice(['', '\n', '  ']), None))
@@ -516,7 +525,7 @@ def rand_items(rng, maxlen: int) -> T.List[Item]:
 
 
 def alphabet() -> T.List[Item]:
-    """the 22 line forms of the exhaustive stream family"""
+    """the 25 line forms of the exhaustive stream family"""
     return [
         Item('version', 'TAP version 13', 13),
         Item('version', 'TAP version 12', 12),
@@ -526,6 +535,7 @@ def alphabet() -> T.List[Item]:
         mk_test(False, None, 'b', None, None), mk_test(False, 3, '', None, None),
         mk_test(True, None, 'c', 'SKIP', 'why'), mk_test(False, 1, '', 'skip', None),
         mk_test(True, 2, 'd', 'TODO', None), mk_test(False, None, '', 'todo', 'later'),
+        mk_test(True, None, '', None, None, comment='TODOS'),
         Item('diag', '# diagnostic', None),
         Item('ystart', ' ---', ' '), Item('ybody', '  key: ok 1', None), Item('yend', ' ...', None),
         Item('bail', 'Bail out! stop', 'stop'),
@@ -711,7 +721,7 @@ def run(ctx: Ctx) -> None:
     rng = ctx.rng
     check_domain(ctx)
     ctx.rule = ('corpus (every stream literal of unittests/taptests.py + regression streams), every stream of length '
-                '<= 3 (quick) / <= 4 (thorough) over a 24-form line alphabet, random structured mostly-valid streams with '
+                '<= 3 (quick) / <= 4 (thorough) over a 25-form line alphabet, random structured mostly-valid streams with '
                 'faults (length <= 40), random fragment/ASCII lines and streams. A parse case is non-trivial when its '
                 'event-kind signature differs from the most common signature of its batch; counted distinct by input.')
     b = Batch(ctx)
@@ -855,14 +865,16 @@ def shrink_lines(lines: T.List[str], still: T.Callable[[T.List[str]], bool]) -> 
     return cur
 
 
-STRICT_TEST = re.compile(r'(not )?ok(?: ([0-9]{1,9}))?(?: ([A-Za-z_.\-][^#\n]*?))?(?: # (SKIP[A-Za-z]*|skip[a-z]*|TODO|todo)(?: ([^\s#][^\n]*?))?)?\n?\Z')
-STRICT_PLAN = re.compile(r'1\.\.([0-9]{1,9})(?: # (SKIP[A-Za-z]*|skip[a-z]*|TODO|todo)(?: ([^\s][^\n]*?))?)?\n?\Z')
+_W = r'[^\s#]+(?: [^\s#]+)*'
+STRICT_TEST = re.compile(r'(not )?ok(?: ([0-9]{1,9}))?(?: ([A-Za-z_.\-][^\s#]*(?: [^\s#]+)*))?'
+                         r'(?: # (SKIP[A-Za-z]*|skip[a-z]*|TODO|todo)(?: (' + _W + r'))?)?\n?\Z')
+STRICT_PLAN = re.compile(r'1\.\.([0-9]{1,9})(?: # (SKIP[A-Za-z]*|skip[a-z]*|TODO|todo)(?: (' + _W + r'))?)?\n?\Z')
 
 
 def recognise(line: str) -> T.Optional[Item]:
     """strict recogniser of unambiguous TAP line spellings (used by search to turn text back into items)"""
     m = STRICT_TEST.match(line)
-    if m and not (m.group(3) or '').endswith(' '):
+    if m:
         return Item('test', line, (m.group(1) is None, int(m.group(2)) if m.group(2) else None, m.group(3) or '',
                                    m.group(4), m.group(5)))
     m = STRICT_PLAN.match(line)
@@ -871,7 +883,7 @@ def recognise(line: str) -> T.Optional[Item]:
     m = re.match(r'TAP version ([0-9]{1,9})\n?\Z', line)
     if m:
         return Item('version', line, int(m.group(1)))
-    m = re.match(r'Bail out!(?: ([^\s][^\n]*?))?\n?\Z', line)
+    m = re.match(r'Bail out!(?: (' + _W + r'))?\n?\Z', line)
     if m:
         return Item('bail', line, m.group(1) or '')
     if re.match(r'#[^\n]*\n?\Z', line):
